@@ -39,7 +39,10 @@ pub fn scratch_dir(seed: u64) -> PathBuf {
 }
 
 fn opts_for(case: &Case) -> Opts {
-    let props: BTreeSet<&'static str> = crate::profiles::ALL_PROPS.iter().copied().filter(|p| *p == case.prop).collect();
+    let mut props: BTreeSet<&'static str> = crate::profiles::ALL_PROPS.iter().copied().filter(|p| *p == case.prop).collect();
+    if std::env::var("VERIF_ALL_PROPS").is_ok() {
+        props.insert("*");
+    }
     Opts {
         settle_each: case.settle_each,
         check_timestamps: true,
